@@ -60,6 +60,7 @@ type Cfg struct {
 	WaitC      int64 // complaint retrospect, seconds
 	Restricted bool
 	Bal        [][]int64 // per actor, per denom
+	ModSvc     bool      `json:",omitempty"` // service "svcc" is served by a module (RegisterModuleService), provider = actor 4
 }
 
 type Step struct {
@@ -256,6 +257,7 @@ func gen(r *lib.Rand, tier, stream string, i int) History {
 		n = 20 + r.Intn(90)
 	}
 	gold := !c.Restricted
+	c.ModSvc = r.Chance(2, 5)
 	// preamble: definitions, an exchange rate, bindings
 	h.Steps = append(h.Steps, Step{K: "define", Svc: 0, Who: 0})
 	if r.Chance(1, 2) {
@@ -281,8 +283,20 @@ func gen(r *lib.Rand, tier, stream string, i int) History {
 			h.Steps = append(h.Steps, bindStep(0, p))
 		}
 	}
+	if c.ModSvc {
+		h.Steps = append(h.Steps, Step{K: "define", Svc: 2, Who: 1})
+		if r.Chance(5, 6) {
+			b := bindStep(2, 4)
+			b.K = "modbind" // only the module itself can bind a service it serves
+			h.Steps = append(h.Steps, b)
+		}
+	}
 	callStep := func() Step {
-		s := Step{K: "call", Svc: r.Weighted(16, 2, 1), Who: 5 + r.Weighted(3, 1), CapA: []int64{100000, 100000, 100000, 100000, 500, 50, 1}[r.Intn(7)], Timeout: r.Range(2, c.MaxTo)}
+		svcW := []int{16, 2, 1}
+		if c.ModSvc {
+			svcW = []int{12, 1, 6}
+		}
+		s := Step{K: "call", Svc: r.Weighted(svcW...), Who: 5 + r.Weighted(3, 1), CapA: []int64{100000, 100000, 100000, 100000, 500, 50, 1}[r.Intn(7)], Timeout: r.Range(2, c.MaxTo)}
 		if r.Chance(1, 6) {
 			s.Timeout = 1
 		}
@@ -827,6 +841,16 @@ func exec(h History) lib.Case {
 			return `{"code":400,"message":"feed not found"}`, ""
 		},
 	})
+	if cfg.ModSvc {
+		// a module serving "svcc" itself, through the provider actor 4: answers at once
+		k.SetModuleService("verifmod", &servicetypes.ModuleService{
+			ServiceName: svcNames[2],
+			Provider:    lib.ActorAddr(4),
+			ReuquestService: func(ctx sdk.Context, input string) (string, string) {
+				return `{"code":200,"message":""}`, `{"header":{},"body":{}}`
+			},
+		})
+	}
 	// a module that owns contexts: records every callback
 	_ = k.RegisterResponseCallback("verif", func(ctx sdk.Context, id tmbytes.HexBytes, outputs []string, err error) {
 		rc, _ := k.GetRequestContext(ctx, id)
@@ -840,7 +864,8 @@ func exec(h History) lib.Case {
 	w.t0 = e.Time.Unix()
 
 	cfgTerm := lib.App("mkCfg", zs(cfg.Tax), zs(cfg.Slash), lib.Z(cfg.MaxTo), lib.Z(cfg.Mult), lib.Z(cfg.MinDep),
-		lib.Z(cfg.WaitA+cfg.WaitC), lib.B(cfg.Restricted), lib.Z(int64(len(denomNames))))
+		lib.Z(cfg.WaitA+cfg.WaitC), lib.B(cfg.Restricted), lib.Z(int64(len(denomNames))),
+		map[bool]string{true: "2", false: "(-1)"}[cfg.ModSvc], "4")
 	obs0, rvs, cvs := w.observe(0, "None", 0)
 	var steps []string
 	// bookkeeping for the non-triviality rule and statistics
@@ -922,6 +947,14 @@ func exec(h History) lib.Case {
 				Pricing: jsonPricing(st.Pr, w.t0), QoS: uint64(st.Qos), Options: opts, Owner: w.addrStr(owner)})
 			term = tx(lib.App("MBind", lib.Z(int64(st.Svc%3)), lib.Z(int64(st.Prov)), lib.Z(int64(st.DepD)), lib.Z(st.DepA), coqPricing(st.Pr, w.t0),
 				lib.Z(st.Qos), lib.B(st.Opt != 2), lib.Z(int64(owner))))
+			render = fmt.Sprintf("price %d%s pt=%v pv=%v dep %d qos %d owner %d", st.Pr.A, denomNames[st.Pr.D], st.Pr.PT, st.Pr.PV, st.DepA, st.Qos, owner)
+		case "modbind":
+			owner := ownerFor(st.Prov, st.Own)
+			out = e.Try(func(ctx sdk.Context) error {
+				return k.AddServiceBinding(ctx, svcNames[st.Svc%3], w.addr(st.Prov), coins(st.DepD, st.DepA), jsonPricing(st.Pr, w.t0), uint64(st.Qos), "{}", w.addr(owner))
+			})
+			term = lib.App("ModBind", lib.Z(int64(st.Svc%3)), lib.Z(int64(st.Prov)), lib.Z(int64(st.DepD)), lib.Z(st.DepA), coqPricing(st.Pr, w.t0),
+				lib.Z(st.Qos), lib.Z(int64(owner)))
 			render = fmt.Sprintf("price %d%s pt=%v pv=%v dep %d qos %d owner %d", st.Pr.A, denomNames[st.Pr.D], st.Pr.PT, st.Pr.PV, st.DepA, st.Qos, owner)
 		case "updbind":
 			owner := ownerFor(st.Prov, st.Own)
